@@ -26,6 +26,8 @@ def law_binop(name, combine):
         res = ex.theory.sshape.fresh("law_" + name)
         ex.assume(T.wf(res))
         ex.assume(T.den(res, V) == combine(T.den(a, V), T.den(c, V)))
+        if hasattr(ex.theory, "law_log"):
+            ex.theory.law_log.append(lambda p, res=res, a=a, c=c: T.den(res, p) == combine(T.den(a, p), T.den(c, p)))
         if name == "or":
             ex.assume(z3.Implies(_never("EmptySpecifier", a, c), z3.Not(b(cls_is(res, "EmptySpecifier")))))
             ex.assume(z3.Implies(_never("AnySpecifier", a, c), z3.Not(b(cls_is(res, "AnySpecifier")))))
@@ -35,7 +37,81 @@ def law_binop(name, combine):
     return law
 
 
-LAWS = {"__or__": law_binop("or", z3.Or), "__and__": law_binop("and", z3.And)}
+def law_invert(ex, a):
+    ex.oblige("pre@law.invert", T.wf(a))
+    res = ex.theory.sshape.fresh("law_invert")
+    ex.assume(T.wf(res))
+    ex.assume(T.den(res, V) == z3.Not(T.den(a, V)))
+    if hasattr(ex.theory, "law_log"):
+        ex.theory.law_log.append(lambda p, res=res, a=a: T.den(res, p) == z3.Not(T.den(a, p)))
+    return res
+
+
+LAWS = {"__or__": law_binop("or", z3.Or), "__and__": law_binop("and", z3.And), "invert": law_invert}
+
+
+def witness_of(res):
+    """a point inside a non-empty canonical result / outside a non-universal one (cf. contracts/lemmas_spec.py)"""
+    from .lemmas_spec import witness_in
+    t = res.term
+    r0 = z3.Select(T.SpecDT.rs(t), 0)
+    r1 = z3.Select(T.SpecDT.rs(t), 1)
+    rr = T.SpecDT.rng(t)
+    inside = z3.If(T.SpecDT.is_SRng(t), witness_in(rr), witness_in(r0))
+    gap = z3.If(T.R.mx(r0) < T.R.mn(r1), (T.R.mx(r0) + T.R.mn(r1)) / 2, T.R.mx(r0))
+    outside = z3.If(T.SpecDT.is_SRng(t), z3.If(T.R.hmin(rr), T.R.mn(rr) - 1, T.R.mx(rr) + 1), gap)
+    return inside, outside
+
+
+def c14_cases(th):
+    """Boolean-algebra laws as corollaries of the C01/C05 law contracts (operands of arbitrary class):
+    both sides canonical and with the same versions (=> equal objects by canonical uniqueness); a & ~a empty, a | ~a universal"""
+    AND, OR = ast.BitAnd(), ast.BitOr()
+    a, b2, c = (th.sshape.fresh(n) for n in "abc")
+    pre = [T.wf(a), T.wf(b2), T.wf(c)]
+
+    def mk(name, f):
+        def thunk(ex):
+            ex.theory.law_log = []
+            return f(ex)
+
+        def post(ex, v):
+            l, r = v
+            return [(f"law.C14.{name}.both-canonical", z3.And(T.wf(l), T.wf(r))), (f"law.C14.{name}.same-versions", T.den(l, V) == T.den(r, V))]
+        return {"name": name, "pre": pre, "thunk": thunk, "post": post, "args": (a, b2, c)}
+    B = lambda ex, op, x, y: ex.binop(op, x, y)
+    I = lambda ex, x: ex.invert(x)
+    yield mk("commutative-and", lambda ex: (B(ex, AND, a, b2), B(ex, AND, b2, a)))
+    yield mk("commutative-or", lambda ex: (B(ex, OR, a, b2), B(ex, OR, b2, a)))
+    yield mk("associative-and", lambda ex: (B(ex, AND, B(ex, AND, a, b2), c), B(ex, AND, a, B(ex, AND, b2, c))))
+    yield mk("associative-or", lambda ex: (B(ex, OR, B(ex, OR, a, b2), c), B(ex, OR, a, B(ex, OR, b2, c))))
+    yield mk("idempotent-and", lambda ex: (B(ex, AND, a, a), a))
+    yield mk("idempotent-or", lambda ex: (B(ex, OR, a, a), a))
+    yield mk("absorption-1", lambda ex: (B(ex, AND, a, B(ex, OR, a, b2)), a))
+    yield mk("absorption-2", lambda ex: (B(ex, OR, a, B(ex, AND, a, b2)), a))
+    yield mk("distributive-1", lambda ex: (B(ex, AND, a, B(ex, OR, b2, c)), B(ex, OR, B(ex, AND, a, b2), B(ex, AND, a, c))))
+    yield mk("distributive-2", lambda ex: (B(ex, OR, a, B(ex, AND, b2, c)), B(ex, AND, B(ex, OR, a, b2), B(ex, OR, a, c))))
+    yield mk("involution", lambda ex: (I(ex, I(ex, a)), a))
+    yield mk("de-morgan-1", lambda ex: (I(ex, B(ex, AND, a, b2)), B(ex, OR, I(ex, a), I(ex, b2))))
+    yield mk("de-morgan-2", lambda ex: (I(ex, B(ex, OR, a, b2)), B(ex, AND, I(ex, a), I(ex, b2))))
+
+    def excluded(name, op):
+        def thunk(ex):
+            ex.theory.law_log = []
+            r = ex.binop(op, a, ex.invert(a))
+            inside, outside = witness_of(r)
+            for inst in list(ex.theory.law_log):       # the laws hold at every point: instantiate them at the witnesses of the result
+                ex.assume(inst(inside))
+                ex.assume(inst(outside))
+            return r
+
+        def post(ex, r):
+            if name == "and":
+                return [("law.C14.complement-and-is-empty", b(cls_is(r, "EmptySpecifier")))]
+            return [("law.C14.complement-or-is-universal", z3.Or(b(cls_is(r, "AnySpecifier")), z3.And(b(cls_is(r, "RangeSpecifier")), T.universal(T.SpecDT.rng(r.term)))))]
+        return {"name": "complement-" + name, "pre": [T.wf(a)], "thunk": thunk, "post": post, "args": (a,)}
+    yield excluded("and", AND)
+    yield excluded("or", OR)
 
 
 def binop_cases(th, opname):
